@@ -293,10 +293,15 @@ func TestC10Regress(t *testing.T) {
 			Cancel int    `json:"cancel_after_ms"`
 			Right  bool   `json:"right_password"`
 			Conc   int    `json:"concurrent_logins"`
+			Large  bool   `json:"large_document"`
 		}
 		mustUnmarshal(t, s, &probe)
 		if probe.Conc > 0 {
 			runC10Concurrent(t)
+			continue
+		}
+		if probe.Large {
+			runC10Large(t)
 			continue
 		}
 		if probe.Flow != "" {
@@ -369,5 +374,63 @@ func runC10Cancel(t failer, flow string, delay int, right bool) {
 	ev.NonTrivial("cancel-during-login", cse)
 	if e := env.stop(); e != nil {
 		t.Fatalf("%v", e)
+	}
+}
+
+// TestC10EnumLargeDocument: configurations with thousands of users (documents of several megabytes), in
+// both formats, loaded from a file as the server does at start; users at the beginning, in the middle
+// and at the very end of the document log in with the right and with a wrong password.
+func TestC10EnumLargeDocument(t *testing.T) { runC10Large(t) }
+
+func runC10Large(t failer) {
+	for _, format := range []string{"yaml", "json"} {
+		for _, viaFile := range []bool{true, false} {
+			ev.Eval()
+			var w cfggen.World
+			w.Keychain = map[string]string{}
+			w.Cfg.Secrets = []cfggen.Secret{cfggen.NewSecret(cfggen.ScopeA, cfggen.KeyA, cfggen.PrefixA)}
+			n := 12000
+			pwOf := func(i int) string { return []string{"pw-alpha", "pw-bravo", "pw-charlie"}[i%3] }
+			grp := cfggen.Group{Name: "everyone", Authenticator: cfggen.BcryptAuth("pw-delta"), Commands: []cfggen.Command{{Name: "show", Match: []string{"version", "clock", "interfaces .*"}, Action: cfggen.ActionPermit}}}
+			for i := 0; i < n; i++ {
+				w.Cfg.Users = append(w.Cfg.Users, cfggen.User{Name: fmt.Sprintf("user%05d", i), Scopes: []string{cfggen.ScopeA}, Groups: []cfggen.Group{grp}, Authenticator: cfggen.BcryptAuth(pwOf(i))})
+			}
+			cse := map[string]interface{}{"large_document": true, "format": format, "users": n, "via_file": viaFile}
+			journal("C10", cse)
+			env, err := startRef(w.Cfg, refOpts{format: format, recover: true, quiet: true, viaFile: viaFile})
+			if err != nil {
+				t.Fatalf("HARNESS-BUG: %v", err)
+			}
+			d, err := env.dial(cfggen.AddrIn(cfggen.ScopeA, 9).IP(), 4400)
+			if err != nil {
+				t.Fatalf("%v", err)
+			}
+			key := []byte(cfggen.KeyA)
+			sess := uint32(1)
+			for _, i := range []int{0, 1, n / 3, n / 2, 2 * n / 3, n - 2, n - 1} {
+				for _, right := range []bool{true, false} {
+					pw := pwOf(i)
+					if !right {
+						pw = "pw-delta" // the group's password: the user's own authenticator takes precedence
+					}
+					sess++
+					st, _, _, err := papLogin(d, key, sess, fmt.Sprintf("user%05d", i), pw)
+					if err != nil {
+						t.Fatalf("%v", err)
+					}
+					switch {
+					case right && st != stPass:
+						violation(t, "C10", "authen", "C10:correct-login-not-passed", cse, "user%05d of %d (a %s document loaded %s) presents the right password and is answered status %d", i, n, format, map[bool]string{true: "from a file", false: "through Unmarshal"}[viaFile], st)
+					case !right && st == stPass:
+						violation(t, "C10", "authen", "C10:unjustified-pass", cse, "user%05d of %d (a %s document loaded %s) presents his group's password, which his own authenticator does not verify, and is answered PASS", i, n, format, map[bool]string{true: "from a file", false: "through Unmarshal"}[viaFile])
+					}
+				}
+			}
+			if e := env.stop(); e != nil {
+				t.Fatalf("%v", e)
+			}
+			ev.Class("document-of-megabytes:" + format)
+			ev.NonTrivial("large-document", cse)
+		}
 	}
 }
